@@ -169,6 +169,7 @@ def check_init(ctx, num=4):
 def run(ctx):
     check_writers(ctx, 1)
     pool.ob_moves_classified(ctx, 2)
+    pool.ob_own_state(ctx, 2)
     pool.ob_deltas(ctx, 2)
     pool.ob_phases(ctx, 2)      # "returned in the tick it completes or fails": whatever can end a container runs before that tick's collection
     check_admission(ctx, 3)
